@@ -51,6 +51,12 @@ Definition strip_sgr (s : bytes) : bytes := strip_aux O s.
 
 Definition no_esc (s : bytes) : Prop := ~ In c_esc s.
 
+(** *** shortening: the ellipsis rune and the number of runes kept in front of it
+    (aquilax/truncate, PositionMiddle: depends on the parity of the name's rune count) *)
+Definition ellipsis : N := 8230.
+Definition keep_front (slen w : nat) : nat :=
+  if Nat.even slen then Nat.div (w - 1 + 1) 2 else Nat.div (w - 1) 2.
+
 (** bytes written by a list of chunks, in order *)
 Definition chunk_bytes (cs : list chunk) : bytes := concat (map fst cs).
 
@@ -331,3 +337,17 @@ Section RunSpec.
   Definition process_never_fails (R : reporter NM) : Prop :=
     forall perm st ln, snd (r_process NM R perm st ln) = None.
 End RunSpec.
+
+(** *** the invocation with the two [--no-color] flags (global, sub-command) replaced *)
+Definition with_no_color (i : invocation) (g l : bool) : invocation :=
+  {| i_f_db := i_f_db i; i_e_db := i_e_db i; i_f_log := i_f_log i; i_e_log := i_e_log i;
+     i_f_fmt := i_f_fmt i; i_e_fmt := i_e_fmt i; i_f_depth := i_f_depth i; i_e_depth := i_e_depth i;
+     i_f_today := i_f_today i; i_f_config := i_f_config i; i_e_config := i_e_config i;
+     i_no_database := i_no_database i;
+     i_g_begin := i_g_begin i; i_g_end := i_g_end i; i_l_begin := i_l_begin i; i_l_end := i_l_end i;
+     i_g_no_color := g; i_l_no_color := l;
+     i_single_food := i_single_food i; i_single_element := i_single_element i;
+     i_group_food := i_group_food i; i_csv := i_csv i; i_no_totals := i_no_totals i;
+     i_totals_only := i_totals_only i; i_shorten := i_shorten i; i_old := i_old i; i_template := i_template i;
+     i_collapse := i_collapse i; i_collapse_last := i_collapse_last i; i_desc := i_desc i; i_silent := i_silent i;
+     i_cmd := i_cmd i |}.
